@@ -27,7 +27,7 @@ def declare(rep):
     rep.rule("C12.area-normal", "update_face_normal_and_area: area = |(x2-x1)x(x3-x1)|/2, normal = normalised cross product", floor=2)
     rep.rule("C12.centroid", "compute_centroid: sum over used faces of (x1+x2+x3)/3*area, divided by area_", floor=2)
     rep.rule("C12.flood-fill-complete", "the winding flood fill of check_face_normal_orientation queues, for the seed face and for every face it visits, the neighbours across all three edges of that face - (n1,n2), (n2,n3), (n3,n1): a neighbour that is never queued from a face can stay unreached, so a wrongly wound input triangle is left as it is", floor=2)
-    rep.rule("C12.eigen-similarity", "every Givens step of gte::SymmetricEigensolver3x3::operator() is a similarity transform of the tridiagonal matrix (b00 b01 b11 b12 b22), and every final reflection of the 2x2 block it diagonalises: with c, s the half-angle pair of GetCosSin(u, v) - c^2+s^2 = 1 and 2cs u = (c^2-s^2) v - the straight-line update preserves trace, tr(B^2) and det, i.e. the characteristic polynomial, as a polynomial identity modulo those two relations. A step that is not a similarity makes the iteration converge to numbers that are not the eigenvalues of the covariance matrix, and the long axis is then wrong for every cell", floor=11)
+    rep.rule("C12.eigen-similarity", "every Givens step of gte::SymmetricEigensolver3x3::operator() is a similarity transform of the tridiagonal matrix (b00 b01 b11 b12 b22), and every final reflection of the 2x2 block it diagonalises: with c, s the half-angle pair of GetCosSin(u, v) - c^2+s^2 = 1 and 2cs u = (c^2-s^2) v - the straight-line update preserves trace, tr(B^2) and det, i.e. the characteristic polynomial, as a polynomial identity modulo those two relations. A step that is not a similarity makes the iteration converge to numbers that are not the eigenvalues of the covariance matrix, and the long axis is then wrong for every cell", floor=12)
     rep.rule("C12.area-sum", "compute_area: sum of get_area() over used faces only", floor=1)
     rep.rule("C12.aabb", "get_aabb: running min/max per axis over used nodes from +/-infinity, returned as (min xyz, max xyz)", floor=7)
     rep.rule("C12.eigen-layout", "the axis returned for eigenvalue k is (evec[k][0], evec[k][1], evec[k][2]): index bookkeeping through the mat33 constructor, transpose and get_col agrees between eigen_decomposition and get_cell_longest_axis", floor=3)
@@ -644,6 +644,68 @@ def eigen_similarity(rep, prog):
                               "the tridiagonal matrix (%s) that SymmetricEigensolver3x3::operator() builds from its input (lines %s-%s) does not have %s of the input matrix (polynomial identity modulo c^2+s^2=1 and (c,s) parallel to the GetCosSin arguments): it is not H*A*H, so the eigenvalues the iteration converges to are not those of the covariance matrix and the long axis is wrong for every cell" % (", ".join(names[d] for d in tri), top[pg[0]].get("l"), top[last].get("l"), " and ".join(bad)))
         except _NoForm as ex:
             raise AnalysisBroken("SymmetricEigensolver3x3::operator(): the Householder prologue is not in a form this checker evaluates (%s)" % ex)
+    # GetCosSin(u, v, cs, sn): every path leaves a unit vector (cs, sn) parallel to (u, v) - the two relations used above
+    gfn = prog.fn(cands[0].rsplit("::", 1)[0] + "::GetCosSin")
+    gps = [p_ for p_ in gfn.get("params", []) if isinstance(p_, dict)]
+    if len(gps) != 4:
+        raise AnalysisBroken("SymmetricEigensolver3x3::GetCosSin does not take (u, v, cs, sn)")
+    u0, v0, m_ = sp.Symbol("u", real=True), sp.Symbol("v", real=True), sp.Symbol("m", positive=True)
+
+    def run_block(stmts, env, out):
+        for st_ in stmts:
+            st_ = strip(st_)
+            k_ = st_.get("k")
+            if k_ == "DeclStmt":
+                for d_ in st_.get("decls", []):
+                    if isinstance(d_, dict) and d_.get("k") == "Var" and isinstance(d_.get("init"), dict):
+                        try:
+                            env[d_["did"]] = _lin_eval(d_["init"], env, consts)
+                        except _NoForm:
+                            env[d_["did"]] = m_ if "max" in render(d_["init"]) else None
+                            if env[d_["did"]] is None:
+                                raise
+            elif k_ == "CompoundAssignOperator" and st_.get("op") == "/=":
+                t = strip(st_["c"][0])
+                env[t["ref"]["did"]] = env[t["ref"]["did"]] / _lin_eval(st_["c"][1], env, consts)
+            elif k_ == "BinaryOperator" and st_.get("op") == "=":
+                t = strip(st_["c"][0])
+                env[t["ref"]["did"]] = _lin_eval(st_["c"][1], env, consts)
+            elif k_ == "IfStmt":
+                th = st_.get("then") or {}
+                el = st_.get("else")
+                e1, e2 = dict(env), dict(env)
+                run_block(th.get("c", []) if th.get("k") == "CompoundStmt" else [th], e1, out)
+                if isinstance(el, dict):
+                    run_block(el.get("c", []) if el.get("k") == "CompoundStmt" else [el], e2, out)
+                else:
+                    out.append(e2)
+                return
+            elif k_ == "CompoundStmt":
+                run_block(st_.get("c", []), env, out)
+                return
+            else:
+                raise _NoForm("statement at line %s of GetCosSin" % st_.get("l"))
+        out.append(env)
+    try:
+        finals = []
+        run_block(gfn["body"].get("c", []), {gps[0]["did"]: u0, gps[1]["did"]: v0}, finals)
+        bad_paths = []
+        for env_ in finals:
+            cs_, sn_ = env_.get(gps[2]["did"]), env_.get(gps[3]["did"])
+            if cs_ is None or sn_ is None:
+                raise _NoForm("a path of GetCosSin leaves cs or sn unset")
+            unit = sp.simplify(cs_ ** 2 + sn_ ** 2 - 1) == 0
+            par = sp.simplify(cs_ * v0 - sn_ * u0) == 0 or (cs_.is_number and sn_.is_number)      # the constant answer is the u = v = 0 path
+            if not (unit and par):
+                bad_paths.append("cs = %s, sn = %s" % (cs_, sn_))
+        n += 1
+        if not bad_paths and len(finals) >= 2:
+            rep.ok("C12.eigen-similarity", prog, gfn, gfn["body"], "GetCosSin leaves a unit vector parallel to (u, v) on each of its %d paths" % len(finals))
+        elif bad_paths:
+            rep.violation("C12.eigen-similarity", prog, gfn, gfn["body"], "GetCosSin does not return the normalised (u, v)",
+                          "SymmetricEigensolver3x3::GetCosSin leaves %s on one of its paths: that is not a unit vector parallel to (u, v), so the reflections built from it are not orthogonal / do not annihilate the intended entry and the eigen decomposition of the covariance matrix is wrong" % bad_paths[0][:160])
+    except _NoForm as ex:
+        raise AnalysisBroken("SymmetricEigensolver3x3::GetCosSin is not in a form this checker evaluates (%s)" % ex)
     # the hand-over: eval[k] = diagonal[i_k] and evec[k] = column i_k of Q, for the same i_k
     ev_ix, vec_ix = {}, {}
     for a_ in walk(fn["body"]):
